@@ -777,6 +777,19 @@ async fn faults(r: &mut Rng) -> (String, String) {
     }
     // workload: a sender blocked on credits, a pending recv, a pending connect and a pending accept
     let ((mut tx, mut ra), (_tb, mut rb)) = conn::open_port(&mut p).await;
+    // silent stalls also begin at a FRAME index of the workload (e.g. between the header frame of a data message and
+    // its payload frame), not only at an instant between two bursts
+    // NOT part of the registered checks yet (opt-in with VERIF_C06_BYFRAME=1): on the unchanged tree the case
+    // `70 3 419544072983891365` leaves dispatcher A running after B ended with Timeout; whether that is a harness
+    // artefact or a genuine C06 defect is undecided (DESIGN.md section 0, "Open observation O-C06-frame")
+    let by_frame = std::env::var("VERIF_C06_BYFRAME").is_ok() && (kind == 3 || kind == 4) && r.chance(1, 2);
+    let sig = if by_frame { format!("{sig}:fr") } else { sig };
+    if by_frame {
+        p.net.a2b.silence_after_frames(r.below(14) as usize);
+        if kind == 3 {
+            p.net.b2a.silence_after_frames(r.below(6) as usize);
+        }
+    }
     let big = vec![7u8; 5000];
     let send_task = tokio::spawn(async move {
         let mut sent = 0usize;
@@ -801,6 +814,7 @@ async fn faults(r: &mut Rng) -> (String, String) {
         0 => net.a2b.fail(Fault::SinkErr),
         1 => net.b2a.fail(Fault::StreamErr),
         2 => net.b2a.fail(Fault::Eof),
+        3 | 4 if by_frame => {}
         3 => {
             net.a2b.silence_after_now();
             net.b2a.silence_after_now();
@@ -814,7 +828,8 @@ async fn faults(r: &mut Rng) -> (String, String) {
     quiesce().await;
     let _ = (&a_client, &b_client, &b_listener, &mut rb, start, t_fault);
     if !mux_a.is_finished() {
-        return (sig, format!("FAIL: C06 dispatcher A still running {:?} after the fault (timeout {:?})", limit, timeout));
+        let b_state = if mux_b.is_finished() { format!("{:?}", mux_b.await) } else { "running".into() };
+        return (sig, format!("FAIL: C06 dispatcher A still running {:?} after the fault (timeout {:?}; dispatcher B: {b_state}; frames a2b {} b2a {})", limit, timeout, net.a2b.log_len(), net.b2a.log_len()));
     }
     let ra = mux_a.await.unwrap();
     if ra.is_ok() {
